@@ -215,6 +215,7 @@ Definition judge_C18 (s : sx) : verdict :=
             let nn := Z.to_nat n' in
             if negb (reNb =? n') then Fail "readers-disagree-on-nbvars" [n'; reNb]
             else if (0 <=? reCount) && negb (reCount =? Z.of_N (ucount nn P')) then Fail "reparsed-count-differs" [Z.of_N (ucount nn P'); reCount]
+            else if reVd =? -1 then Sx.Ok [printer; Z.of_nat (List.length bytes)]   (* optimisation skipped by the harness (negative cost, D6) *)
             else match umin nn P' c' with
                  | None => if reVd =? 2 then Sx.Ok [printer; Z.of_nat (List.length bytes)] else Fail "reparsed-optimum-differs" [2; reVd]
                  | Some b => if (reVd =? 1) && (reW =? b) then Sx.Ok [printer; Z.of_nat (List.length bytes)]
